@@ -1108,7 +1108,7 @@ fn builtin_sort(args: Vec<Rc<Object>>) -> Result<Rc<Object>, String> {
             arr.elements.borrow_mut().sort();
             Ok(Rc::clone(&args[0]))
         }
-        _ => Ok(Rc::new(Object::Null)),
+        _ => Err(String::from("unsupported argument")),
     }
 }
 
@@ -1122,7 +1122,7 @@ fn builtin_chars(args: Vec<Rc<Object>>) -> Result<Rc<Object>, String> {
         Object::Str(s) => Ok(Rc::new(Object::Arr(Rc::new(Array::new(
             s.chars().map(|c| Rc::new(Object::Char(c))).collect(),
         ))))),
-        _ => Ok(Rc::new(Object::Null)),
+        _ => Err(String::from("unsupported argument")),
     }
 }
 
@@ -1160,7 +1160,7 @@ fn builtin_join(args: Vec<Rc<Object>>) -> Result<Rc<Object>, String> {
             }
             Ok(Rc::new(Object::Str(s)))
         }
-        _ => Ok(Rc::new(Object::Null)),
+        _ => Err(String::from("unsupported argument")),
     }
 }
 
